@@ -357,6 +357,26 @@ def clause_d(c: Check):
                  'reading environment: the contents of an enclosing suite reach the cases of its sub-suites' % bad,
                  s.loc)
     c.floor('C17-d', 'suite resolutions in the hierarchy reader', n_sites, 1)
+    # standalone: the case file is the file NAMED on the command line - symbolic links not followed - as a case listed
+    # in a suite is the file named there: `exactly.suite` is looked for beside that name and the home directory is
+    # the directory of that name
+    tces = ix.cls('exactly_lib.processing.standalone.settings:TestCaseExecutionSettings')
+    n_s = 0
+    for s_ in util.call_sites_of(ix, tces):
+        if not s_.where.startswith('exactly_lib.cli.program_modes.test_case.argument_parsing:'):
+            continue
+        n_s += 1
+        b = util.ctor_call_args(ix, tces, s_.node) or {}
+        a = b.get('test_case_file_path')
+        a = util.resolve_temp(s_.func, a) if a is not None else None
+        d = ix.callee(s_.module, s_.func, a) if isinstance(a, ast.Call) else None
+        ok = isinstance(d, External) and d.dotted in ('pathlib.Path', 'pathlib.PurePath') and len(a.args) == 1 \
+            and isinstance(a.args[0], ast.Attribute) and not a.keywords
+        c.expect(ok, 'C17-d', 'standalone/case-file-is-the-file-named@' + s_.where,
+                 'the case file of a standalone run is `%s`, not the path as given on the command line: for a case '
+                 'reached through a symbolic link the suite beside it and its home directory differ from those of the '
+                 'same case listed in a suite' % (unparse(a) if a is not None else None), s_.loc)
+    c.floor('C17-d', 'constructions of the standalone settings from the command line', n_s, 1)
     # rf reads the suite and resolves with rs
     ok = False
     for call, d in util.calls_in(ix, rf):
